@@ -32,8 +32,8 @@ except Exception:  # pylint: disable=broad-except
   SCHED = None
 
 TIERS = {
-    'quick': dict(shards=8, programs=250, thread_cases=25, timeout_s=600),
-    'thorough': dict(shards=16, programs=2000, thread_cases=200, timeout_s=3000),
+    'quick': dict(shards=8, programs=250, thread_cases=25, timeout_s=600, case_timeout_s=300),
+    'thorough': dict(shards=16, programs=2000, thread_cases=200, timeout_s=3000, case_timeout_s=300),
 }
 RULE = ('case = one random well-nested program of `with` blocks over the 23 scoped '
         'context managers of scopes.MANAGERS (all documented argument values, '
@@ -120,9 +120,17 @@ def gen_program(rng, spec, disabled=()):
   budget = [rng.randint(5, 24)]
   target = rng.choice([1, 2, 2, 3, 3, 4, 4, 5, 6, 6])
 
-  def gen_with(depth, state):
+  def gen_with(depth, state, stack):
     for _ in range(8):
-      name = rng.choice(names)
+      # The nesting rule of a manager only shows when it is nested in itself
+      # (or in the manager it shares its setting with).
+      again = [x for x in stack if x in names]
+      if again and rng.random() < 0.3:
+        name = rng.choice(again)
+        if name in ('detour', 'apply_wrappers') and 'apply_wrappers' in names:
+          name = rng.choice(['detour', 'detour', 'apply_wrappers'])
+      else:
+        name = rng.choice(names)
       m = S.MANAGERS[name]
       args = m.gen(rng, spec, state)
       if name == 'dynamic_evaluate' and not args.get('invalid'):
@@ -130,7 +138,7 @@ def gen_program(rng, spec, disabled=()):
                  (not args['per_thread'] and state['de_tls'] != S.NOSCOPE))
         # The undocumented mix is generated rarely and never while other
         # threads run (its residue is process-wide).
-        if mixed and (not spec.solo or rng.random() < 0.7):
+        if mixed and (not spec.solo or rng.random() < 0.4):
           continue
       break
     else:
@@ -139,11 +147,11 @@ def gen_program(rng, spec, disabled=()):
     inner = state
     if m.enter(state, args, spec) == 'no':
       inner = m.push(state, args, spec)
-    body = block(depth + 1, inner)
+    body = block(depth + 1, inner, stack + [name])
     return {'k': 'with', 'm': name, 'a': args, 'body': body,
-            'heavy': name == 'view_options' or rng.random() < 0.12}
+            'heavy': rng.random() < 0.1}
 
-  def block(depth, state):
+  def block(depth, state, stack):
     out = []
     n = rng.randint(1, 3)
     for j in range(n):
@@ -152,9 +160,9 @@ def gen_program(rng, spec, disabled=()):
       budget[0] -= 1
       r = rng.random()
       if depth < MAX_DEPTH and (r < 0.58 or (j == 0 and depth < target)):
-        out.append(gen_with(depth, state))
+        out.append(gen_with(depth, state, stack))
       elif r < 0.70:
-        body = block(depth, state) if budget[0] > 0 else []
+        body = block(depth, state, stack) if budget[0] > 0 else []
         if body and not (len(body) == 1 and body[0]['k'] == 'try'):
           out.append({'k': 'try', 'catch': rng.choice(['E1', 'E2', 'any', 'any']),
                       'body': body})
@@ -162,6 +170,7 @@ def gen_program(rng, spec, disabled=()):
         kind = rng.choice(['E1', 'E2', 'E2', 'E3'])
         out.append({'k': 'raise', 'exc': kind,
                     'msg': rng.choice(['boom-1', 'boom-2', 'other'])})
+        break                      # the rest of the block would be unreachable
       elif r < 0.90 and spec.allow_spawn:
         out.append({'k': 'spawn'})
       elif r < 0.95 and spec.allow_spawn:
@@ -170,7 +179,7 @@ def gen_program(rng, spec, disabled=()):
         out.append({'k': 'obs'})
     return out
 
-  return block(0, S.default_state())
+  return block(0, S.default_state(), [])
 
 
 def show(nodes, indent=0):
@@ -204,8 +213,9 @@ class Shared:
 class Exec:
   """Runs a program in the calling thread; thread-confined."""
 
-  def __init__(self, env, hook=None, shared=None, concurrent=False):
+  def __init__(self, env, hook=None, shared=None, concurrent=False, muted_mgrs=()):
     self.env = env
+    self.muted_mgrs = set(muted_mgrs)
     self.state = S.default_state()
     self.hook = hook or (lambda: None)
     self.shared = shared
@@ -221,15 +231,21 @@ class Exec:
     self.deaf_reported = False
 
   # -- observation -------------------------------------------------------------
-  def snapshot(self, heavy, fresh=False):
+  def snapshot(self, full, fresh=False, focus=None):
     env, st = self.env, self.state
     snap = {}
     for o in S.OBSERVERS:
-      if o.name in self.muted or not S.applicable(o, env, heavy):
+      if o.name in self.muted or not S.applicable(o, env, full, focus):
+        continue
+      if o.mgr.split('[')[0] in self.muted_mgrs:
         continue
       if o.intrusive and o.expect(st, env) == S.DONTCARE:
         continue
-      snap[o.name] = o.observe(env)
+      try:
+        snap[o.name] = o.observe(env)
+      except Exception as e:  # pylint: disable=broad-except
+        # a getter / probe that raises is an observation like any other
+        snap[o.name] = ('observer-raised', type(e).__name__)
       self.counters['observer_evals'] += 1
     if fresh:
       r = S.in_fresh_thread(lambda: fresh_process_view())
@@ -291,9 +307,9 @@ class Exec:
         self.muted.add(n)
 
   # -- program interpreter -----------------------------------------------------
-  def run(self, nodes):
+  def run(self, nodes, full=True):
     """Runs a whole program; returns how it ended."""
-    snap = self.snapshot(True)
+    snap = self.snapshot(full)
     self.check_model(snap, 'default-state')
     try:
       self.run_nodes(nodes)
@@ -301,7 +317,7 @@ class Exec:
     except (S.E1, S.E2, S.E3) as e:
       end = 'escaped:' + type(e).__name__
       self.counters['exceptions_escaped_to_top'] += 1
-    snap = self.snapshot(True)
+    snap = self.snapshot(full)
     self.check_model(snap, 'default-state')
     return end
 
@@ -337,18 +353,19 @@ class Exec:
     heavy = n['heavy']
     fresh = m.scope == 'process' or n['m'] == 'dynamic_evaluate'
     fresh = fresh and env.solo and not self.concurrent
-    before = self.snapshot(heavy, fresh)
+    before = self.snapshot(heavy, fresh, n['m'])
     self.check_model(before, 'effective-inside')
     saved = self.state
     expect_enter = m.enter(saved, args, env)
     entered = False
     body_exc = out_exc = None
-    y = None
-    exit_calls0 = env.exit_calls
+    y = exit_token = None
     env.exit_exc = None
+    env.exit_token = None
     depth = len(self.path) + 1
     try:
       cm = m.make(args, env)
+      exit_token = env.exit_token
       with cm as y:
         entered = True
         self.state = m.push(saved, args, env)
@@ -363,7 +380,7 @@ class Exec:
         self.max_depth = max(self.max_depth, depth)
         self.managers_entered.add(n['m'])
         self.hook()
-        inside = self.snapshot(heavy)
+        inside = self.snapshot(heavy, False, n['m'])
         exp_y = m.yielded(self.state, args, env)
         if exp_y != S.DONTCARE:
           self.counters['yield_checks'] += 1
@@ -392,7 +409,7 @@ class Exec:
       if n['m'] == 'dynamic_evaluate' and args['per_thread']:
         self.had_thread_de = True
     self.hook()
-    after = self.snapshot(heavy, fresh)
+    after = self.snapshot(heavy, fresh, n['m'])
     exit_kind = ('enter-raised' if not entered else
                  'exception' if body_exc is not None else 'normal')
     self.shape.append((label, exit_kind))
@@ -411,7 +428,9 @@ class Exec:
         if expect_enter == 'must':
           self.report('invalid-arguments-accepted', label,
                       f'{n["m"]}({args}) entered the block')
-        reraise = self.check_flow(n, label, args, y, body_exc, out_exc, exit_calls0)
+        reraise = self.check_flow(n, label, args, y, body_exc, out_exc, exit_token)
+        if not isinstance(reraise, (S.E1, S.E2, S.E3)):
+          reraise = None       # an exception of the library's own was reported above
       # restore law (model-free)
       self.counters['restore_checks'] += 1
       self.counters['restore_checks_' + {'normal': 'normal_exit', 'exception':
@@ -434,30 +453,39 @@ class Exec:
       o = S.OBS_BY_NAME.get(name)
       by_mgr.setdefault(o.mgr if o else name, []).append((k, b, a))
     own = n['m']
-    suffix = {'normal': '', 'exception': '!exception-exit',
-              'enter-raised': '!enter-raised'}[exit_kind]
+    # (the exit kind is in the detail; only a raising enter is a different mechanism)
+    suffix = '!enter-raised' if exit_kind == 'enter-raised' else ''
+    if self.had_thread_de and 'dynamic_evaluate[process]' in by_mgr:
+      # leaving a per-thread block changed whether process-wide blocks work
+      # (seen at this exit or, if the probe was a don't-care there, at the
+      # exit of an enclosing block)
+      items = by_mgr.pop('dynamic_evaluate[process]')
+      self.report('process-scope-ignored', 'dynamic_evaluate@after-thread-scope',
+                  f'`with {n["m"]}({n["a"]})` left by {exit_kind}: ' +
+                  '; '.join(f'{k}: before {b!r}, after {a!r}' for k, b, a in items))
+      self.deaf_reported = True
+      self.muted.add('de.process-scope-effective')
+
+    def is_own(mgr):
+      return (mgr == own or mgr.split('[')[0] == own or
+              (own == 'apply_wrappers' and mgr == 'detour'))
+    if any(is_own(mgr) for mgr in by_mgr):
+      # The block's own setting was not restored; behavioural probes of other
+      # managers that depend on it differ as a consequence.
+      merged = [it for items in by_mgr.values() for it in items]
+      by_mgr = collections.OrderedDict([(own, merged)])
     for mgr, items in by_mgr.items():
       detail = (f'`with {n["m"]}({n["a"]})` left by {exit_kind}: ' +
                 '; '.join(f'{k}: before {b!r}, after {a!r}' for k, b, a in items))
-      if mgr == 'dynamic_evaluate[process]' and own == 'dynamic_evaluate' \
-          and label == 'dynamic_evaluate[thread]':
-        # leaving a per-thread block changed whether process-wide blocks work
-        self.report('process-scope-ignored', 'dynamic_evaluate@after-thread-scope',
-                    detail)
-        self.deaf_reported = True
-        self.muted.add('de.process-scope-effective')
-        continue
-      same = (mgr == own or mgr.split('[')[0] == own or
-              (own == 'apply_wrappers' and mgr == 'detour'))
-      mech = label + suffix if same else f'{label}{suffix}>{mgr}'
+      mech = label + suffix if is_own(mgr) else f'{label}{suffix}>{mgr}'
       self.report('restore', mech, detail)
       for k, _, _ in items:
         self.muted.add(k[len('fresh-thread:'):] if k.startswith('fresh-thread:') else k)
-      if mgr.startswith('dynamic_evaluate'):
-        S.heal_process_state()
+      if mgr.startswith('dynamic_evaluate') and self.env.process_ok:
+        S.heal_process_state(self.state['de_glob'])
         self.counters['process_state_heals'] += 1
 
-  def check_flow(self, n, label, args, y, body_exc, out_exc, exit_calls0):
+  def check_flow(self, n, label, args, y, body_exc, out_exc, exit_token):
     """Checks how exceptions travel through the block; returns what to re-raise."""
     env = self.env
     self.counters['exception_flow_checks'] += 1
@@ -473,7 +501,7 @@ class Exec:
         self.report('exception-flow', label, 'context.error set without an exception')
     if n['m'] == 'dynamic_evaluate' and args.get('exit'):
       if body_exc is None:
-        if args['exit'] == 'count' and env.exit_calls != exit_calls0 + 1:
+        if args['exit'] == 'count' and exit_token[0] != 1:
           self.report('exception-flow', label, 'exit_fn not called exactly once on '
                       'normal exit')
         if args['exit'] == 'raise':
@@ -493,7 +521,6 @@ class Exec:
     if out_exc is not body_exc:
       self.report('exception-flow', label,
                   f'body raised {body_exc!r}, block raised {out_exc!r}')
-      return out_exc if out_exc is not None else None
     return body_exc
 
   # -- other threads -----------------------------------------------------------
@@ -551,18 +578,26 @@ class Exec:
         self.muted.add(name)
 
 
+def _observe(o, env):
+  try:
+    return o.observe(env)
+  except Exception as e:  # pylint: disable=broad-except
+    return ('observer-raised', type(e).__name__)
+
+
 def fresh_thread_view():
   """All per-thread observers, from the calling (fresh) thread."""
   env = S.Env(tid=-1, process_ok=False, solo=False)
-  return {o.name: o.observe(env) for o in S.OBSERVERS
+  return {o.name: _observe(o, env) for o in S.OBSERVERS
           if S.applicable(o, env, False)}
 
 
 def fresh_process_view():
   """Observers of process-wide settings, from the calling (fresh) thread."""
-  env = S.Env(tid=-1, process_ok=True, solo=False)
-  names = ('de.getter', 'de.oneof', 'ltypes.getter', 'ltypes.from_json')
-  return {n: S.OBS_BY_NAME[n].observe(env) for n in names if n in S.OBS_BY_NAME}
+  names = ('de.getter', 'ltypes.getter', 'ltypes.from_json')
+  if 'de.getter' not in S.OBS_BY_NAME:
+    names += ('de.oneof',)
+  return {n: _observe(S.OBS_BY_NAME[n], None) for n in names if n in S.OBS_BY_NAME}
 
 
 # ---------------------------------------------------------------------------
@@ -605,13 +640,13 @@ def _run_in_thread(fn):
   return r[1]
 
 
-def run_solo(ctx, program, spec, prefix=''):
+def run_solo(ctx, program, spec, full=True):
   """One program on a fresh thread; returns the Exec."""
   def body():
     env = S.Env(tid=0, process_ok=spec.process_ok, solo=spec.solo)
     env.foreign_process_de = spec.foreign_process_de
-    ex = Exec(env)
-    ex.end = ex.run(program)
+    ex = Exec(env, muted_mgrs={d.split('[')[0] for d in ctx.c17_disabled})
+    ex.end = ex.run(program, full)
     return ex
   return _run_in_thread(body)
 
@@ -634,8 +669,10 @@ def process_baseline(ctx):
 
 
 def run_case(ctx, i):
-  if i % 16 == 0:
-    process_baseline(ctx)
+  nviol = sum(r['count'] for r in ctx.violations.values())
+  if i % 16 == 0 or nviol != getattr(ctx, 'c17_nviol', 0):
+    process_baseline(ctx)      # after a violation: look for process-wide residue
+    ctx.c17_nviol = sum(r['count'] for r in ctx.violations.values())
   if i < ctx.params['thread_cases']:
     run_thread_case(ctx, i)
   else:
@@ -647,7 +684,7 @@ def run_program_case(ctx, i):
   spec = EnvSpec(0, process_ok=True, solo=True)
   disabled = {d.split('[')[0] for d in ctx.c17_disabled}
   program = gen_program(rng, spec, disabled)
-  ex = run_solo(ctx, program, spec)
+  ex = run_solo(ctx, program, spec, full=rng.random() < 0.2)
   _merge(ctx, ex)
   ctx.counters['programs'] += 1
   ctx.counters['program_end:' + ex.end.split(':')[0]] += 1
@@ -683,7 +720,7 @@ class Phaser:
         self.cv.notify_all()
         return
       while self.gen == g:
-        if not self.cv.wait(20):
+        if not self.cv.wait(60):
           raise _Abort()
 
   def leave(self):
@@ -718,7 +755,7 @@ def run_thread_case(ctx, i):
   # 1. each program alone (attribution baseline, also plain coverage)
   solo_keys = set()
   for t in range(nthreads):
-    ex = run_solo(ctx, programs[t], specs[t])
+    ex = run_solo(ctx, programs[t], specs[t], full=False)
     _merge(ctx, ex, 'threadcase_solo_')
     solo_keys |= _emit(ctx, ex.violations, case)
 
@@ -732,9 +769,10 @@ def run_thread_case(ctx, i):
       try:
         env = S.Env(tid=t, process_ok=specs[t].process_ok, solo=False)
         env.foreign_process_de = specs[t].foreign_process_de
-        ex = Exec(env, hook=hook_factory(), shared=shared, concurrent=True)
+        ex = Exec(env, hook=hook_factory(), shared=shared, concurrent=True,
+                  muted_mgrs=disabled)
         execs[t] = ex
-        ex.end = ex.run(programs[t])
+        ex.end = ex.run(programs[t], full=(t == 0))
       except BaseException as e:  # pylint: disable=broad-except
         errors[t] = e
         if type(e).__name__ == 'SchedulerAbort':
@@ -745,6 +783,10 @@ def run_thread_case(ctx, i):
           leave()
     return worker
 
+  # pg.coding.evaluate() captures output with contextlib.redirect_stdout, which
+  # swaps the process-wide sys.stdout: concurrent calls can leave it pointing at
+  # a StringIO for good.  Not a C17 manager; the harness protects its own output.
+  stdout0 = sys.stdout
   ctx.counters['thread_cases'] += 1
   ctx.counters['thread_cases:' + mode] += 1
   ctx.counters[f'thread_cases_with_{nthreads}_threads'] += 1
@@ -780,11 +822,14 @@ def run_thread_case(ctx, i):
       for th in threads:
         th.start()
       for th in threads:
-        th.join(100)
+        th.join(200)
         if th.is_alive():
           outcome = 'stuck'
     finally:
       sys.setswitchinterval(old)
+  if sys.stdout is not stdout0:
+    sys.stdout = stdout0
+    ctx.counters['note_sys_stdout_left_redirected_by_concurrent_evaluate'] += 1
   if outcome != 'ok' or any(isinstance(e, _Abort) or type(e).__name__ == 'SchedulerAbort'
                             for e in errors):
     ctx.counters['thread_cases_inconclusive'] += 1
